@@ -288,7 +288,7 @@ func c13NdjsonOracle(h []byte, truncated bool) (ok bool, why string) {
 		if !complete {
 			continue
 		}
-		if len(bytes.TrimSpace(l)) == 0 {
+		if len(bytes.Trim(l, " \t\r")) == 0 { // blank = JSON white space only (not Unicode spaces, FF, VT)
 			continue
 		}
 		if oracle.Value(l) != oracle.Complete {
@@ -427,6 +427,14 @@ func c13Run(c *fw.Ctx, b fw.Batch) {
 				lims = append(lims, uint32(L))
 			}
 			c13ConverseNdjson(c, "ndjson-stream", d, lims)
+		}
+	case "late-delimiter":
+		// the first delimiter of the table lies beyond byte 512 (a very long first header cell)
+		for _, delim := range []byte{',', '\t'} {
+			for _, n := range []int{511, 512, 513, 600, 1500} {
+				d := []byte(strings.Repeat("h", n) + string(delim) + "second\n" + "1" + string(delim) + "2\n" + "3" + string(delim) + "4\n")
+				c13Forward(c, t, "late-delimiter", d, len(d)-4, delim, false, fmt.Sprintf("late|%c|%d", delim, n))
+			}
 		}
 	case "damaged-tables":
 		for i := 0; i < b.N; i++ {
@@ -605,7 +613,7 @@ func c13Run(c *fw.Ctx, b fw.Batch) {
 		}
 	case "soups":
 		goodLines := []string{`{"a":1}`, `[1,2]`, `{}`, `[]`, `1`, `"s"`, `true`, `null`, ` {"b":[1]} `, `-1.5e3`, `{"a":{"b":[]}}`, ``, `  `, "\t"}
-		badLines := []string{`{"a":`, `[1,`, `"abc`, `tru`, `{]`, `{"a":1}}`, `[1]]`, `{"a" 1}`, `{"a":1} x`, `[1 2]`, `{`, `[`, `{"a":[}`, `nul`, `1 2`, `"a" "b"`, `{"a":1},`, `\`, `'a'`, `[1,]x`}
+		badLines := []string{`{"a":`, `[1,`, `"abc`, `tru`, `{]`, `{"a":1}}`, `[1]]`, `{"a" 1}`, `{"a":1} x`, `[1 2]`, `{`, `[`, `{"a":[}`, `nul`, `1 2`, `"a" "b"`, `{"a":1},`, `\`, `'a'`, `[1,]x`, "\u00a0", "\u2028", "\x0c", " \u3000 ", "\x0b", "\u0085"}
 		for i := 0; i < b.N; i++ {
 			n := 2 + r.Intn(5)
 			var ls []string
@@ -661,6 +669,7 @@ func init() {
 			bs = append(bs, batches("tables", 5, nt, 1800)...)
 			bs = append(bs, batches("comment-tables", 1, nc, 1800)...)
 			bs = append(bs, batches("ndjson", 5, nn, 1800)...)
+			bs = append(bs, batches("late-delimiter", 1, 0, 1800)...)
 			bs = append(bs, batches("damaged-tables", 2, nd, 1800)...)
 			bs = append(bs, batches("soups", 3, ns, 1800)...)
 			bs = append(bs, batches("single-column", 1, nd*4, 1800)...)
